@@ -90,6 +90,10 @@ impl Rig {
 }
 
 pub struct RunCfg {
+    /// directed order class: parent links are registered newest-first after all votes, and everything
+    /// concerning slots without a main-chain block (side-block votes and certificates, skip certificates)
+    /// arrives in that late phase too: certificates for slots already decided implicitly, gaps closed late
+    pub late_links: bool,
     pub jitter: f64,
     pub dup_votes: f64,
     pub cert_frac: f64,
@@ -135,6 +139,22 @@ pub fn build_ops(rng: &mut SRng, ep: &Epoch, w: &World, cfg: &RunCfg) -> Vec<Op>
                 timed.push((at, Op::Wait(s)));
             }
             s += 4;
+        }
+    }
+    if cfg.late_links {
+        let max_slot = w.votes.iter().map(|v| v.slot).max().unwrap_or(1) as f64;
+        let chain_slots: BTreeSet<u64> = w.blocks.iter().filter(|b| b.on_chain).map(|b| b.id.0).collect();
+        let span = 3.0 * (max_slot + 2.0);
+        for (t, op) in timed.iter_mut() {
+            match op {
+                Op::Block(b, _) => {
+                    // newest first, spread over the late phase
+                    *t = max_slot + 2.0 + (max_slot - b.0 as f64) * 3.0 + rng.random_range(0.0..2.5);
+                }
+                Op::Vote(v) if !chain_slots.contains(&v.slot) => *t = max_slot + 2.0 + rng.random_range(0.0..span),
+                Op::Cert(_, s, ..) if !chain_slots.contains(s) => *t = max_slot + 2.0 + rng.random_range(0.0..span),
+                _ => {}
+            }
         }
     }
     timed.sort_by(|a, b| a.0.partial_cmp(&b.0).unwrap());
